@@ -4,6 +4,7 @@ package checks
 
 import (
 	"fmt"
+	"github.com/uhn/ggql/pkg/ggql"
 	"sort"
 	"strconv"
 	"strings"
@@ -59,11 +60,17 @@ type c20Op struct {
 	Sid   int
 	Topic string
 	N     int
+	// Exe: the subscription request is made through the parsed document that
+	// the task keeps and resolves once per subscriber
+	Exe bool
 }
 
 func (o c20Op) String() string {
 	switch o.Kind {
 	case "sub":
+		if o.Exe {
+			return "sub(" + strconv.Itoa(o.Sid) + ", through the kept parsed document)"
+		}
 		return "sub(" + strconv.Itoa(o.Sid) + ")"
 	case "unsub":
 		return "unsub(" + strconv.Quote(o.Topic) + ")"
@@ -131,6 +138,9 @@ func (c C20) Run(t *tape.Tape, opt core.RunOpt) (res core.Result) {
 	}
 	var pre []int
 	var plans [][]c20Op
+	var sharedExe *ggql.Executable
+	preExe := map[int]bool{}
+	sharedOp := ""
 	switch family {
 	case 0: // websocket pattern: a connection reader unsubscribes its id (twice) while a resolver publishes and the connection drops
 		sb := newSub("a")
@@ -173,6 +183,27 @@ func (c C20) Run(t *tape.Tape, opt core.RunOpt) (res core.Result) {
 		}
 		ntasks := 2 + t.Draw(5)
 		maxOps := 4
+		// one task accepts every new subscriber through one parsed subscription
+		// document that it keeps (parse once, resolve per client), the other
+		// tasks publish and unsubscribe
+		shared := t.Bool(1, 3)
+		sharedSel, sharedTopic := t.Draw(len(workload.SubSelections)), topic()
+		if shared {
+			src, op := w.SubscriptionDoc(sharedSel, sharedTopic)
+			exe, perr := w.Root.ParseExecutableString(src)
+			if perr != nil {
+				res.Fatal = "subscription document rejected: " + perr.Error()
+				return
+			}
+			sharedExe, sharedOp = exe, op
+			for k := 0; k < t.Draw(3); k++ {
+				sb := newSub(sharedTopic)
+				sb.SelIndex = sharedSel
+				pre = append(pre, sb.ID)
+				preExe[sb.ID] = true
+			}
+			res.Count("probe_one_task_subscribes_through_a_kept_parsed_document", 1)
+		}
 		if opt.Tier == "thorough" && t.Bool(1, 2) {
 			// deeper histories in the thorough tier (still within what porcupine
 			// decides quickly: <= 8 tasks x 6 calls, publishes split in two)
@@ -182,7 +213,19 @@ func (c C20) Run(t *tape.Tape, opt core.RunOpt) (res core.Result) {
 		for i := 0; i < ntasks; i++ {
 			var ops []c20Op
 			for j := 0; j < 1+t.Draw(maxOps); j++ {
-				switch t.Draw(7) {
+				d := t.Draw(7)
+				if shared {
+					if i == 0 && (j < 2 || d < 4) {
+						sb := newSub(sharedTopic)
+						sb.SelIndex = sharedSel
+						ops = append(ops, c20Op{Kind: "sub", Sid: sb.ID, Exe: true})
+						continue
+					}
+					if d < 2 {
+						d = 2
+					}
+				}
+				switch d {
 				case 0, 1:
 					ops = append(ops, c20Op{Kind: "sub", Sid: newSub(topic()).ID})
 				case 2, 3:
@@ -195,12 +238,23 @@ func (c C20) Run(t *tape.Tape, opt core.RunOpt) (res core.Result) {
 					ops = append(ops, c20Op{Kind: "unsub", Topic: topic()})
 				}
 			}
+			if shared && i == 0 && len(ops) < 2 {
+				sb := newSub(sharedTopic)
+				sb.SelIndex = sharedSel
+				ops = append(ops, c20Op{Kind: "sub", Sid: sb.ID, Exe: true})
+			}
 			plans = append(plans, ops)
 		}
 	}
 	// pre-registration happens before the run (hook inactive, sequential)
 	for _, sid := range pre {
-		if r := w.Subscribe(sid); r != `{"data":null}` {
+		r := ""
+		if preExe[sid] {
+			r = w.SubscribeExe(sharedExe, sharedOp, sid)
+		} else {
+			r = w.Subscribe(sid)
+		}
+		if r != `{"data":null}` {
 			res.Fatal = "pre-registration failed: " + r
 			return
 		}
@@ -220,7 +274,11 @@ func (c C20) Run(t *tape.Tape, opt core.RunOpt) (res core.Result) {
 				cl.Inv = s.Stamp("invoke|"+o.String(), "call")
 				switch o.Kind {
 				case "sub":
-					cl.Resp = w.Subscribe(o.Sid)
+					if o.Exe {
+						cl.Resp = w.SubscribeExe(sharedExe, sharedOp, o.Sid)
+					} else {
+						cl.Resp = w.Subscribe(o.Sid)
+					}
 				case "pub":
 					n, e := w.Publish(o.Topic, o.N)
 					cl.Cnt, cl.Err = n, e != nil
